@@ -192,7 +192,8 @@ def extract(ctx):
 
 # ---- the real code under vsched -----------------------------------------------------------------------------
 # A scenario = {'uris': [int...], 'ops': [op...]}, op =
-#   ('ps'|'par', argsdict|None, {u: n})   parallel_safe / parallel with a user action; member u raises UserErr(n)
+#   ('ps'|'par', argsdict|None, {u: n}[, {u: secs}])   parallel_safe / parallel with a user action; member u raises UserErr(n);
+#                                         members in the optional 4th field run for that many virtual seconds
 #   ('seq', argsdict|None, {u: n})        sequential
 #   ('open', [u...])                      open_links(); the members listed fail to connect
 #   ('close',)                            close_links()
@@ -296,14 +297,18 @@ def make_classes(env):
     return Factory
 
 
-def make_action(env, fails):
+def make_action(env, fails, slow=None):
     vs = env.vs
     op = env.op
+    slow = slow or {}
 
     def act(scf, *args):
         u = uri_n(getattr(scf, '_link_uri', 'uri-1'))
         vs.emit('call', op, u, env.ordinal(scf), tuple(args))
-        vs.yield_now('act')
+        if u in slow:
+            vs.time.sleep(slow[u])          # a long-running action (virtual seconds)
+        else:
+            vs.yield_now('act')
         if u in fails:
             e = UserErr(fails[u])
             env.tag(e, 'u%d' % fails[u])
@@ -350,7 +355,7 @@ def make_main(vs, Swarm, scenario, out):
                 if kind in ('ps', 'par', 'seq'):
                     ad = None if op[1] is None else {uri_s(u): list(a) for u, a in op[1].items()}
                     fn = {'ps': sw.parallel_safe, 'par': sw.parallel, 'seq': sw.sequential}[kind]
-                    fn(make_action(env, op[2]), ad)
+                    fn(make_action(env, op[2], op[3] if len(op) > 3 else None), ad)
                 elif kind == 'open':
                     env.connfail = set(op[1])
                     sw.open_links()
@@ -604,10 +609,11 @@ def rand_scenario(rng, ids):
     for _ in range(rng.choice([1, 2, 3, 4, 5, 6])):
         r = rng.random()
         fs = [u for u in members if rng.random() < rng.choice([0.0, 0.3, 0.6, 1.0])]
+        slow = {u: rng.choice([0.5, 3.0, 60.0, 7200.0]) for u in members if rng.random() < 0.3} if rng.random() < 0.4 else {}
         if r < 0.35:
-            ops.append(('ps', rand_args(rng, members), ids.fails(fs)))
+            ops.append(('ps', rand_args(rng, members), ids.fails(fs), slow))
         elif r < 0.5:
-            ops.append(('par', rand_args(rng, members), ids.fails(fs)))
+            ops.append(('par', rand_args(rng, members), ids.fails(fs), slow))
         elif r < 0.6:
             ops.append(('seq', rand_args(rng, members, missing_ok=False), ids.fails(fs[:1] if rng.random() < 0.7 else fs)))
         elif r < 0.85:
@@ -652,6 +658,9 @@ def plan(ctx):
     # failure followed by another failing call in the same process, open/close cycles, direct pre-open
     pl.append(({'uris': [5, 6], 'ops': [('ps', None, ids.fails([5])), ('ps', None, ids.fails([6])), ('open', [6]), ('open', []), ('open', []),
                                          ('close',), ('preopen', 0), ('open', []), ('seq', {5: [1], 6: [2]}, ids.fails([6]))]}, ('random', 25 if t else 8)))
+    # the failing member is joined first while later members still run for a long (virtual) time
+    for us, fs, slow in (([5, 6], [5], {6: 3600.0}), ([5, 6, 7], [6], {5: 1.0, 7: 90000.0}), ([5, 6, 7, 8], [5, 8], {6: 0.25, 7: 10.0})):
+        pl.append(({'uris': us, 'ops': [('ps', None, ids.fails(fs), slow), ('par', None, ids.fails(fs), slow)]}, ('random', 6 if t else 3)))
     # random multi-call scenarios under random schedules
     for _ in range(2500 if t else 260):
         pl.append((rand_scenario(rng, ids), ('random', 1)))
@@ -737,7 +746,7 @@ def search(ctx):
 
 
 def replay(ctx, rp):
-    """re-run a recorded witness (scenario + schedule) on the current code; True iff the property holds on it"""
+    """re-run a recorded witness (scenario + schedule) on the current code; True iff it STILL FAILS"""
     import contextlib
     import io
     import logging
@@ -745,7 +754,8 @@ def replay(ctx, rp):
     logging.disable(logging.CRITICAL)
     w = rp.get('witness', {}).get('input')
     if not w:
-        print('nothing to replay: the record names broken obligations only:', [b.get('name') for b in rp.get('broken', [])])
+        print('replay: this file names broken obligations, not an input; run ./check C19 to re-check them:',
+              [b.get('name') for b in rp.get('broken', [])])
         return False
     sc = {'uris': w['uris'], 'ops': [tuple(_unjson(op)) for op in w['ops']]}
     with vsched.Session(step_limit=4000, trace_points=report_points()) as s, contextlib.redirect_stdout(io.StringIO()):
@@ -755,7 +765,7 @@ def replay(ctx, rp):
     bad = judge(sc, res, out)
     for b in bad:
         print('violated:', b[0], '-', b[1], b[2])
-    return not bad
+    return bool(bad)
 
 
 def _unjson(op):
